@@ -20,6 +20,10 @@ Proof.
   split; [exact E|]. intros sd Hs. rewrite E. unfold src_stream_noise_var. rewrite Hs. reflexivity.
 Qed.
 
+(* degrees of freedom: k = 4 * round(df * dt), round = half to even *)
+Lemma k_chi2_df df dt : src_chi2_df df dt = (4 * rhe (df * dt))%Z.
+Proof. unfold src_chi2_df. first [reflexivity | (f_equal; apply rhe_proper; first [reflexivity | ring])]. Qed.
+
 Theorem k11_all s i sigma r : ~ sigma == 0 -> ~ r == 0 ->
   src_get_intensity s sigma r == get_intensity_q s sigma r /\ src_get_snr i sigma r == get_snr_q i sigma r.
 Proof.
